@@ -352,9 +352,21 @@ class Extract:
                 return
         if p.get("k") == "tuple" and i.get("k") == "match":
             # let (a, b) = match X { Pattern(.., h, w) => (*h, *w), _ => panic }
-            for arm in i["arms"]:
-                body = strip(arm["body"])
-                if body.get("k") == "tup" and len(body["xs"]) == len(p["ps"]):
+            def _arm_tuple(arm_):
+                b_ = strip(arm_["body"])
+                pre = []
+                if b_ is not None and b_.get("k") == "blk" and b_["b"]["tail"] is not None and all(x_.get("k") == "let" for x_ in b_["b"]["stmts"]):
+                    pre = list(b_["b"]["stmts"])
+                    b_ = strip(b_["b"]["tail"])
+                if b_ is not None and b_.get("k") == "tup" and len(b_["xs"]) == len(p["ps"]):
+                    return pre, b_
+                return None
+            cands_ = [a_ for a_ in i["arms"] if _arm_tuple(a_) is not None]
+            # the general (3-D) arm describes the extents of the data itself; a flat arm re-derives them from the declared shape
+            cands_.sort(key=lambda a_: 0 if "Triple" in pat_str_safe(a_["pat"]) else 1)
+            for arm in cands_[:1]:
+                pre_, body = _arm_tuple(arm)
+                if True:
                     scr = pretty(strip(i["scrut"]))
                     ap = arm["pat"]
                     while ap.get("k") in ("ref", "deref"):
@@ -363,6 +375,8 @@ class Extract:
                         for pos, q in enumerate(ap["ps"]):
                             for nm, h in pat_binds(q):
                                 self.env[h] = Rat.atom("%s.%d" % (scr, pos))
+                    for st_ in pre_:
+                        self.bind_let(st_, guards)       # the arm's own temporaries (`let rows = tensor[0].len();`)
                     for q, x in zip(p["ps"], body["xs"]):
                         self.bind_let({"pat": q, "init": x}, guards)
                     return
@@ -506,6 +520,14 @@ class Extract:
             else:
                 out.append(st)
         self.stmts = out
+
+
+def pat_str_safe(p):
+    try:
+        from .hir import pat_str
+        return pat_str(p)
+    except Exception:  # noqa
+        return ""
 
 
 def extract(crate, fn):
